@@ -9,6 +9,14 @@ import z3
 DEFAULT_TIMEOUT_MS = int(os.environ.get("PYVC_TIMEOUT_MS", "20000"))
 
 
+def zs(v):
+    """Python str of a z3 string value (z3 prints code points outside printable ASCII as \\u{h..} escapes)."""
+    import re as _re
+
+    t = v.as_string() if hasattr(v, "as_string") else str(v)
+    return _re.sub(r"\\u\{([0-9a-fA-F]+)\}", lambda m: chr(int(m.group(1), 16)), t)
+
+
 class Stats:
     def __init__(self):
         self.queries = 0
